@@ -41,26 +41,34 @@ type borrow struct {
 var alsoRuns = map[string][]borrow{
 	// folding and restore rely on complete state serialization and on canonical map keys in the loaded state
 	// … the log copy is compacted with DeleteRange over an inclusive range (C09.L4) and its entries round-trip (C18.F1-F3)
-	"C02": {{prop: "C03"}, {prop: "C14", rules: []string{"M6"}}, {prop: "C09", rules: []string{"L4"}}, {prop: "C18", rules: []string{"F1", "F2", "F3"}}},
-	"C03": {{prop: "C14", rules: []string{"M6"}}},
+	// … and the horizon follows the installed configuration (C16.V3)
+	"C02": {{prop: "C03"}, {prop: "C14", rules: []string{"M6"}}, {prop: "C09", rules: []string{"L4"}}, {prop: "C18", rules: []string{"F1", "F2", "F3"}}, {prop: "C16", rules: []string{"V3"}}},
+	"C03": {{prop: "C14", rules: []string{"M6"}}, {prop: "C02", rules: []string{"N1"}, keyHas: "live global"}},
 	// acknowledged entries survive snapshots (C02, C03), the store honours its contract (C09 + its entry codec), and
 	// "delivers exactly once" includes the resume protocol (C04)
-	"C04": {{prop: "C08"}}, // the resume protocol relies on Get/GetNext honouring their contract
+	// the resume protocol relies on Get/GetNext honouring their contract (C08); a message's reply number is its position in
+	// the batch (C01.R4); nodes that restored from a snapshot file the same outputs under the same ids (C18.F1 default id, C02.N4)
+	"C04": {{prop: "C08"}, {prop: "C01", rules: []string{"R4"}}, {prop: "C18", rules: []string{"F1"}, keyHas: "default id"}, {prop: "C02", rules: []string{"N4"}}},
 	"C05": {{prop: "C02"}, {prop: "C03"}, {prop: "C09"}, {prop: "C18"}, {prop: "C04"}, {prop: "C08"}, {prop: "C14", rules: []string{"M6"}}},
 	// the state invariants that justify look-ups in C06.G3 are preserved iff C14's pairing rules hold
-	"C06": {{prop: "C14"}},
+	// … and sessions ended by somebody else leave the session table (C17.Y4), else their next line finds no nickname entry
+	"C06": {{prop: "C14"}, {prop: "C17", rules: []string{"Y4"}}},
 	// the marked entry lands in a store that honours its contract (C09, F2/F3); the duplicate-detection marker advances for a
 	// skipped entry (C10.U3); every entry, marked or not, is re-filed before it is applied or skipped and is folded by
 	// compaction, and restore rebuilds from it (C02.N1/N3/N4/N5); the marker and everything else survives a snapshot (C03)
 	"C07": {{prop: "C09"}, {prop: "C18", rules: []string{"F2", "F3"}}, {prop: "C10", rules: []string{"U3"}}, {prop: "C02", rules: []string{"N1", "N3", "N4", "N5"}}, {prop: "C03"}},
 	// "under every interleaving": the lock discipline of the output stream (C20 restricted to package outputstream)
 	// … and "returns exactly what was added": the batch codec is symmetric (C18.F4)
-	"C08": {{prop: "C20", funcPrefix: "outputstream."}, {prop: "C18", rules: []string{"F4"}}},
+	// … and readers always call the current stream (C04.P7)
+	"C08": {{prop: "C20", funcPrefix: "outputstream."}, {prop: "C18", rules: []string{"F4"}}, {prop: "C04", rules: []string{"P7"}}},
 	// entries are encoded/decoded field by field without loss
 	"C09": {{prop: "C18", rules: []string{"F1", "F2", "F3"}}},
 	// the tombstone written for a message of death keeps the client message id and the same slot; compaction folds it; the
 	// marker is part of the snapshot
-	"C10": {{prop: "C07", rules: []string{"D2", "D3", "D5"}}, {prop: "C02", rules: []string{"N1"}}, {prop: "C03", keyHas: "lastClientMessageId"}},
+	"C10": {{prop: "C07", rules: []string{"D2", "D3", "D5"}}, {prop: "C02", rules: []string{"N1"}}, {prop: "C03", keyHas: "lastClientMessageId"},
+		{prop: "C18", rules: []string{"F1", "F2"}, keyHas: "ClientMessageId"}},
+	// instances must not share mutable package-level state: a configuration is decoded into a fresh value (C16.V3)
+	"C01": {{prop: "C16", rules: []string{"V3"}, keyHas: "fresh configuration value"}},
 	// ended sessions must leave the session table, otherwise their secret keeps working
 	"C11": {{prop: "C17", rules: []string{"Y1", "Y3", "Y4"}}},
 	// recipient sets are computed from the membership relations whose pairing C14 checks
